@@ -63,6 +63,11 @@ CLAIMS = {
                   '(1271 rows), checks the table is a function, and recomputes the verdict of each of the ~3900 logged real executions (Parse, Validate, and negated through Not()).',
              technique='TLC-enumerated predicate tables + exhaustive replay of every row on the real library, validated by TLC', ref='5 C20, 3.8',
              note='Email/UUID/URL/Match on token alphabets only; concretisation of symbolic subjects is trusted harness code.'),
+ 'C11': dict(engine='Tables', text='C11 is a finite catalogue (spec/Tab_C11.tla): every built-in test of every type, required/not_nil/coerce, invalid_json/invalid_form and custom schemas, crossed with test-level options, '
+                  'WithIssueFormatter and four global formatter configurations (1248 rows). The shipped en/es language maps are imported as data from the real packages; TLC checks that every entry has a template or non-empty fallback '
+                  'and that every placeholder is a parameter of its test, emits every row, and validates code, type, parameter keys, value, non-empty placeholder-free message and the SOURCE of the message (signed sentinels) of every real issue.',
+             technique='TLC-checked catalogue over imported language maps + exhaustive replay of every row on the real library, validated by TLC', ref='5 C11, 3.8',
+             note='Wording is not judged. Bool True()/False() may report either their dedicated code or eq.'),
 }
 NA_REASON = 'check not built yet (work in progress; DESIGN.md section 11 gives the build order)'
 checks = []
@@ -77,7 +82,7 @@ for p in props:
 m = dict(version=1, setup_cmd='bin/setup',
          hooks=dict(guard='verif', enable='go build -tags verif (harness module replaces github.com/Oudwins/zog with /repo)',
                     baseline_off_cmd='cd /repo && go test -vet=off -count=1 ./...', source_commits=hook_commits, add_only=True),
-         engines=[dict(name='Tables', path='/verif/spec/Tab_C18.tla', serves_properties=['C18', 'C03', 'C04', 'C20'], kind_free_text='finite decision tables in TLA+ (Tab_C03, Tab_C04, Tab_C18): TLC checks table invariants, emits rows, validates observed outcomes'),
+         engines=[dict(name='Tables', path='/verif/spec/Tab_C18.tla', serves_properties=['C18', 'C03', 'C04', 'C20', 'C11'], kind_free_text='finite decision tables in TLA+ (Tab_C03, Tab_C04, Tab_C18): TLC checks table invariants, emits rows, validates observed outcomes'),
                   dict(name='ZogBuild', path='/verif/spec/ZogBuild.tla', serves_properties=['C16'], kind_free_text='TLA+ model of builder histories over Go slices with backing-array identity + trace validation'),
                   dict(name='ZogPools', path='/verif/spec/ZogPools.tla', serves_properties=['C07', 'C08'], kind_free_text='TLA+ model of pooled objects, call histories and goroutines (TLC) + history replay + TLC trace validation of pool events'),
                   dict(name='ZogExec', path='/verif/spec/ZogExec.tla', serves_properties=[p for p in props if p in CLAIMS and CLAIMS[p].get('engine', 'ZogExec') == 'ZogExec'],
